@@ -213,8 +213,9 @@ def runCalls (dataEnv : String → Option Bytes) (intEnv : String → Option Nat
 /-- poolscript.accountWitnessScript(expiry, tweakedTraderKey, tweakedAuctioneerKey) -/
 def accountWitnessScriptB (expiry : Nat) (tk ak : Bytes) : Builder :=
   runCalls
-    (fun a => if a == "tweakedTraderKey" then some tk else if a == "tweakedAuctioneerKey" then some ak else none)
-    (fun a => if a == "int64(expiry)" then some expiry else none)
+    -- parameters of accountWitnessScript(expiry, tweakedTraderKey, tweakedAuctioneerKey) by position
+    (fun a => if a == "$p1" then some tk else if a == "$p2" then some ak else none)
+    (fun a => if a == "$p0" then some expiry else none)
     Gen.C04.accountWitnessScriptCalls {}
 
 def accountWitnessScript (expiry : Nat) (tk ak : Bytes) : Bytes := (accountWitnessScriptB expiry tk ak).script
@@ -222,8 +223,9 @@ def accountWitnessScript (expiry : Nat) (tk ak : Bytes) : Bytes := (accountWitne
 /-- the script of poolscript.TaprootExpiryScript; `tkx` = schnorr.SerializePubKey(tweakedTraderKey) -/
 def taprootExpiryScriptB (expiry : Nat) (tkx : Bytes) : Builder :=
   runCalls
-    (fun a => if a == "schnorr.SerializePubKey(tweakedTraderKey)" then some tkx else none)
-    (fun a => if a == "int64(expiry)" then some expiry else none)
+    -- the x-only serialisation of the local tweaked trader key; expiry = parameter 0
+    (fun a => if a == "schnorr.SerializePubKey($v)" then some tkx else none)
+    (fun a => if a == "$p0" then some expiry else none)
     Gen.C04.taprootExpiryScriptCalls {}
 
 def taprootExpiryScript (expiry : Nat) (tkx : Bytes) : Bytes := (taprootExpiryScriptB expiry tkx).script
@@ -491,20 +493,21 @@ def witnessFromLayout (env : String → Option Bytes) : List String → Option (
     | _, _ => none
 
 def spendMultiSig (witnessScript traderSig auctioneerSig : Bytes) : Option (List Bytes) :=
-  witnessFromLayout (fun e => if e == "auctioneerSig" then some auctioneerSig else if e == "traderSig" then some traderSig
-    else if e == "witnessScript" then some witnessScript else none) Gen.C04.spendMultiSigLayout
+  -- parameters by position: SpendMultiSig(witnessScript, traderSig, auctioneerSig)
+  witnessFromLayout (fun e => if e == "$p2" then some auctioneerSig else if e == "$p1" then some traderSig
+    else if e == "$p0" then some witnessScript else none) Gen.C04.spendMultiSigLayout
 
 def spendExpiry (witnessScript traderSig : Bytes) : Option (List Bytes) :=
-  witnessFromLayout (fun e => if e == "traderSig" then some traderSig
-    else if e == "witnessScript" then some witnessScript else none) Gen.C04.spendExpiryLayout
+  witnessFromLayout (fun e => if e == "$p1" then some traderSig
+    else if e == "$p0" then some witnessScript else none) Gen.C04.spendExpiryLayout
 
 def spendMuSig2Taproot (combinedSig : Bytes) : Option (List Bytes) :=
-  witnessFromLayout (fun e => if e == "combinedSig" then some combinedSig else none) Gen.C04.spendMuSig2TaprootLayout
+  witnessFromLayout (fun e => if e == "$p0" then some combinedSig else none) Gen.C04.spendMuSig2TaprootLayout
 
 def spendExpiryTaproot (witnessScript traderSig controlBlock : Bytes) : Option (List Bytes) :=
-  witnessFromLayout (fun e => if e == "traderSig" then some traderSig
-    else if e == "witnessScript" then some witnessScript
-    else if e == "serializedControlBlock" then some controlBlock else none) Gen.C04.spendExpiryTaprootLayout
+  witnessFromLayout (fun e => if e == "$p1" then some traderSig
+    else if e == "$p0" then some witnessScript
+    else if e == "$p2" then some controlBlock else none) Gen.C04.spendExpiryTaprootLayout
 
 def isExpirySpend (w : List Bytes) : Bool :=
   match w with
@@ -582,58 +585,37 @@ def WType.name : WType → String
 def lookupNat (tbl : List (String × Nat)) (k : String) : Option Nat := (tbl.find? (·.1 == k)).map (·.2)
 def lookupStr (tbl : List (String × String)) (k : String) : Option String := (tbl.find? (·.1 == k)).map (·.2)
 
-/-- does account version `v` fall under a `case` with these constant names ([] = default)? -/
-def versionMatches (names : List String) (v : Nat) : Bool :=
-  names.isEmpty || names.any (fun n => lookupNat Gen.C04.accountVersionValues n == some v)
-
-/-- the only condition text the model understands; any other text makes the result `.bad` -/
-def expiredCondText : String := "account.State == StateExpired || bestHeight >= account.Expiry"
-
-def determineWitnessTypeWith :
-    List (List String × String × String × String) → (version state expiry bestHeight : Nat) → WType
-  | [], _, _, _, _ => .bad
-  | (names, cond, a, b) :: rest, v, st, e, best =>
-    if versionMatches names v then
-      if cond != expiredCondText then .bad
-      else if st = Gen.C04.stateExpired || best ≥ e then wtypeByName a else wtypeByName b
-    else determineWitnessTypeWith rest v st e best
-
+/-- `determineWitnessType`, from the regenerated decision table: the function was evaluated on one
+representative per class (account versions / states that behave differently from all others are listed, every
+other value behaves like the `Other` representative; best height vs expiry only matters through `<`, `=`, `>`). -/
 def determineWitnessType (version state expiry bestHeight : Nat) : WType :=
-  determineWitnessTypeWith Gen.C04.determineWitnessTypeTable version state expiry bestHeight
+  let vk := if Gen.C04.dwtVersionSpecial.contains version then version else Gen.C04.dwtVersionOther
+  let sk := if Gen.C04.dwtStateSpecial.contains state then state else Gen.C04.dwtStateOther
+  let rel := if bestHeight < expiry then 0 else if bestHeight = expiry then 1 else 2
+  match Gen.C04.dwtTable.find? (fun r => r.1 == vk && r.2.1 == sk && r.2.2.1 == rel) with
+  | some r => wtypeByName r.2.2.2
+  | none => .bad
 
 /-- spendAccount: lock time for a witness type (`none` = the function returns an error);
 `isClose` = `action == CLOSE` -/
-def spendLockTimeWith : List (List String × String × String) → WType → (isClose : Bool) → (bestHeight : Nat) → Option Nat
-  | [], _, _, _ => none
-  | (names, rhs, guard) :: rest, wt, isClose, best =>
-    if names.isEmpty then none
-    else if names.any (fun n => wtypeByName n == wt) then
-      if guard == "action != CLOSE" && !isClose then none
-      else if guard != "" && guard != "action != CLOSE" then none
-      else if rhs == "bestHeight" then some best
-      else if rhs == "0" then some 0
-      else none
-    else spendLockTimeWith rest wt isClose best
-
 def spendLockTime (wt : WType) (isClose : Bool) (bestHeight : Nat) : Option Nat :=
-  spendLockTimeWith Gen.C04.spendAccountLockTimeTable wt isClose bestHeight
+  match Gen.C04.spendAccountLockTimeTable.find? (fun r => r.1 == wt.name && r.2.1 == isClose) with
+  | some r => if r.2.2 == "best" then some bestHeight else if r.2.2 == "0" then some 0 else none
+  | none => none
 
-/-- RenewAccount's own choice: always a cooperative type, taproot flavour from the account version on
-(`account.Version >= VersionTaprootEnabled`), whatever the state / best height -/
+/-- RenewAccount's own choice (regenerated table over account versions 0, 1, 2 and 3 = anything above) -/
 def renewWitnessType (version : Nat) : WType :=
-  let rule := Gen.C04.renewWitnessTypeRule
-  if rule.2.1 != "account.Version >= VersionTaprootEnabled" then .bad
-  else match lookupNat Gen.C04.accountVersionValues "VersionTaprootEnabled" with
-    | some t => if version ≥ t then wtypeByName rule.2.2 else wtypeByName rule.1
-    | none => .bad
+  match Gen.C04.renewWitnessTypeTable.find? (fun r => r.1 == min version 3) with
+  | some r => wtypeByName r.2
+  | none => .bad
 
-/-- the witness type a manager method uses for the account input (`none` = method not known / source
-expression not understood) -/
+/-- the witness type a manager method uses for the account input (`none` = method not known / rule not
+understood) -/
 def managerWitnessType (method : String) (version state expiry bestHeight : Nat) : Option WType :=
   match lookupStr Gen.C04.spendWitnessTypeSource method with
-  | some src =>
-    if src == "determineWitnessType(account, bestHeight)" then some (determineWitnessType version state expiry bestHeight)
-    else if method == "RenewAccount" && src == Gen.C04.renewWitnessTypeRule.1 then some (renewWitnessType version)
+  | some kind =>
+    if kind == "determineWitnessType" then some (determineWitnessType version state expiry bestHeight)
+    else if method == "RenewAccount" && kind == "own-rule" then some (renewWitnessType version)
     else none
   | none => none
 
@@ -643,7 +625,7 @@ def createSpendTxSequence : Option Nat :=
 
 /-- witnessType.IsExpirySpend via the regenerated table -/
 def wtypeIsExpiry (wt : WType) : Bool :=
-  match Gen.C04.witnessTypeIsExpiryTable.find? (fun r => r.1.any (fun n => wtypeByName n == wt)) with
+  match Gen.C04.witnessTypeIsExpiryTable.find? (fun r => r.1 == wt.name) with
   | some r => r.2 == "true"
   | none => false
 
@@ -670,13 +652,13 @@ structure DiffIn where
 /-- one statement of the closure an `account.Modifier` constructor returns (regenerated text); `none` = a
 statement the model does not understand (e.g. a guard) -/
 def applyModifierStmt (stmt : String) (arg : Nat) (a : AcctRec) : Option AcctRec :=
-  if stmt == "account.Value = value" then some { a with value := arg }
-  else if stmt == "account.Expiry = expiry" then some { a with expiry := arg }
-  else if stmt == "account.Version = version" then some { a with version := arg }
-  else if stmt == "account.BatchKey = poolscript.IncrementKey(account.BatchKey)" then
+  if stmt == "$acct.Value = $arg" then some { a with value := arg }
+  else if stmt == "$acct.Expiry = $arg" then some { a with expiry := arg }
+  else if stmt == "$acct.Version = $arg" then some { a with version := arg }
+  else if stmt == "$acct.BatchKey = poolscript.IncrementKey($acct.BatchKey)" then
     some { a with batchInc := a.batchInc + 1 }
-  else if stmt == "account.State = state" || stmt == "account.OutPoint = op" ||
-      stmt == "account.HeightHint = heightHint" || stmt == "account.LatestTx = tx" then some a
+  else if stmt == "$acct.State = $arg" || stmt == "$acct.OutPoint = $arg" ||
+      stmt == "$acct.HeightHint = $arg" || stmt == "$acct.LatestTx = $arg" then some a
   else none
 
 def applyStmts : List String → Nat → AcctRec → Option AcctRec
@@ -694,33 +676,28 @@ def applyModifier (name : String) (arg : Nat) (a : AcctRec) : Option AcctRec :=
 /-- conditions of batch storer / verifier the model understands, evaluated on the account as loaded -/
 def diffCondHolds (cond : String) (d : DiffIn) (a : AcctRec) : Option Bool :=
   if cond == "" then some true
-  else if cond == "batch.Version.SupportsAccountExtension() && diff.NewExpiry != 0" then
+  else if cond == "$batch.Version.SupportsAccountExtension() && $diff.NewExpiry != 0" then
     some (d.supportsExt && d.newExpiry != 0)
-  else if cond == "batch.Version.SupportsAccountTaprootUpgrade() && diff.NewVersion > acct.Version" then
+  else if cond == "$acct.Version < $diff.NewVersion && $batch.Version.SupportsAccountTaprootUpgrade()" then
     some (d.supportsUpg && decide (d.newVersion > a.version))
   else none
 
 def diffArg (arg : String) (d : DiffIn) : Nat :=
-  if arg == "diff.NewExpiry" then d.newExpiry
-  else if arg == "diff.NewVersion" then d.newVersion
-  else if arg == "diff.EndingBalance" then d.endingBalance
+  if arg == "$diff.NewExpiry" then d.newExpiry
+  else if arg == "$diff.NewVersion" then d.newVersion
+  else if arg == "$diff.EndingBalance" then d.endingBalance
   else 0
 
-def recreatedCase : String := "switch diff.EndingState case auctioneerrpc.AccountDiff_OUTPUT_RECREATED"
-
-def storedAfterBatchWith : List (String × String × String × String) → DiffIn → AcctRec → AcctRec → Option AcctRec
+def storedAfterBatchWith : List (String × String × String) → DiffIn → AcctRec → AcctRec → Option AcctRec
   | [], _, _, acc => some acc
-  | (label, cond, name, arg) :: rest, d, orig, acc =>
-    -- rows of other cases of the `switch diff.EndingState` do not apply to a re-created output
-    if label != "" && label != recreatedCase then storedAfterBatchWith rest d orig acc
-    else
-      match diffCondHolds cond d orig with
+  | (cond, name, arg) :: rest, d, orig, acc =>
+    match diffCondHolds cond d orig with
+    | none => none
+    | some false => storedAfterBatchWith rest d orig acc
+    | some true =>
+      match applyModifier name (diffArg arg d) acc with
       | none => none
-      | some false => storedAfterBatchWith rest d orig acc
-      | some true =>
-        match applyModifier name (diffArg arg d) acc with
-        | none => none
-        | some acc' => storedAfterBatchWith rest d orig acc'
+      | some acc' => storedAfterBatchWith rest d orig acc'
 
 /-- the record `batchStorer.StorePendingBatch` stages for an account whose output is re-created -/
 def storedAfterBatch (d : DiffIn) (a : AcctRec) : Option AcctRec :=
@@ -733,8 +710,8 @@ def verifiedWith : List (String × String × String) → DiffIn → AcctRec → 
     | none => none
     | some false => verifiedWith rest d orig acc
     | some true =>
-      if field == "acct.Expiry" then verifiedWith rest d orig { acc with expiry := diffArg val d }
-      else if field == "acct.Version" then verifiedWith rest d orig { acc with version := diffArg val d }
+      if field == "$acct.Expiry" then verifiedWith rest d orig { acc with expiry := diffArg val d }
+      else if field == "$acct.Version" then verifiedWith rest d orig { acc with version := diffArg val d }
       else none
 
 /-- the parameters of the re-created output `batchVerifier.Verify` checks: the loaded account with its
@@ -752,7 +729,7 @@ def sizeConstByName (s : String) : Nat :=
   else 0
 
 def wtypeWitnessSize (wt : WType) : Nat :=
-  match Gen.C04.witnessSizeTable.find? (fun r => r.1.any (fun n => wtypeByName n == wt)) with
+  match Gen.C04.witnessSizeTable.find? (fun r => r.1 == wt.name) with
   | some r => sizeConstByName r.2
   | none => 0
 
